@@ -109,6 +109,8 @@ class BaseInitOracle(Contract):
         from pyvc.values import VClass
         h = v.ctx.heap[v.args_v['self'].oid]
         h.closed = False
+        from pyvc.values import VBool
+        h.fields['terminated'] = VBool(True)        # no child yet (SpawnBase.__init__)
         h.fields['string_type'] = VClass('bytes' if v.old.encoding is None else 'str')
         h.fields['encoding'] = v.args_v['encoding']
 
@@ -220,7 +222,7 @@ class PopenOracle(Contract):
 
 class PopenInit(Contract):
     name = POPEN + '.__init__'
-    props = ('C07', 'C13')
+    props = ('C07', 'C13', 'C10')
     standin = False
     only_in = 'ctor'
     context = 'ctor'
@@ -242,7 +244,8 @@ class PopenInit(Contract):
         g = v.g
         out = passes_through(v, BASE_ARGS)
         if v.raised is None:
-            out += [('C13:one-child-started', g.get('popens', 0) == 1),
+            out += [('C10:a-started-child-is-not-reported-as-terminated', eq(v.new.self.terminated, False)),
+                    ('C13:one-child-started', g.get('popens', 0) == 1),
                     ('C13:child-gets-the-requested-working-directory', same_ref(g.get('popen.cwd'), v.old.cwd)),
                     ('C13:child-gets-exactly-the-requested-environment', same_ref(g.get('popen.env'), v.old.env)),
                     ('C13:child-gets-the-requested-preexec-hook', same_ref(g.get('popen.preexec_fn'), v.old.preexec_fn))]
